@@ -3,12 +3,14 @@
    stdout: one line per case,  model-result <TAB> verdict
    verdict is "-" (no predicate), "ok", "n/a" or "FAIL:<reason>": the property's own executable
    predicate (a Gallina definition, extracted) evaluated on the implementation's result. *)
-let table : (string, string -> string -> string * string) Hashtbl.t = Hashtbl.create 64
+(* a command is "name" or "name:param" *)
+let table : (string, string -> string -> string -> string * string) Hashtbl.t = Hashtbl.create 64
 let () =
   List.iter (fun (k, f) -> Hashtbl.replace table k f) [
-    "frombuf", Wire.cmd_frombuf;
-    "rt", Wire.cmd_rt;
-    "concat", Wire.cmd_concat;
+    "frombuf", (fun _ -> Wire.cmd_frombuf);
+    "rt", (fun _ -> Wire.cmd_rt);
+    "concat", (fun _ -> Wire.cmd_concat);
+    "cursor", Xcursor.cmd_cursor;
   ]
 
 let () =
@@ -23,10 +25,13 @@ let () =
          | c :: a :: i :: _ -> c, a, i
          | [] -> "", "", "" in
        let (m, v) =
-         match Hashtbl.find_opt table cmd with
+         let name, param = match String.index_opt cmd ':' with
+           | None -> cmd, ""
+           | Some i -> String.sub cmd 0 i, String.sub cmd (i + 1) (String.length cmd - i - 1) in
+         match Hashtbl.find_opt table name with
          | None -> ("UNKNOWN-COMMAND", "-")
          | Some f ->
-           (try f arg impl with
+           (try f param arg impl with
             | Stack_overflow -> ("DRIVER-STACK-OVERFLOW", "-")
             | e -> ("DRIVER-EXCEPTION " ^ Printexc.to_string e, "-")) in
        Buffer.add_string out m; Buffer.add_char out '\t';
